@@ -863,8 +863,17 @@ class DateTime(datetime.datetime, Date):
 
             return early if first else late
 
-        # A skipped time, moved backward (fold=0) or forward (fold=1)
-        return late if first else early
+        # A skipped time, moved backward (fold=0) or forward (fold=1):
+        # the unit starts where the skipped period ends, and ends just before it
+        before, after = early.in_timezone("UTC"), late.in_timezone("UTC")
+        while after - before > datetime.timedelta(microseconds=1):
+            middle = before + (after - before) // 2
+            if middle.in_timezone(self.tz).utcoffset() == early.utcoffset():
+                before = middle
+            else:
+                after = middle
+
+        return (after if first else before).in_timezone(self.tz)
 
     def _start_of_second(self) -> Self:
         """
